@@ -52,6 +52,9 @@ def run_prop(prop, tier, scratch, t0, extra=None):
     if prop in ("C02", "C04"):
         # workload B: synthetic co_code with 1-3 EXTENDED_ARG prefixes and long forward jumps, built by V itself
         batches += D.synthetic_code_batches(scratch, cf["versions"], 60 if quick else 1500, prop)
+    if prop == "C03":
+        # workload T: 66 000-entry constant and name tables indexed at the boundary operands (EXTENDED_ARG carries the high part)
+        batches += D.synthetic_bigtable_batches(scratch, cf["versions"], prop)
     if prop in ("C05", "C17"):
         # workload L: synthetic line / location / exception tables installed by V itself
         batches += D.synthetic_table_batches(scratch, cf["versions"], 80 if quick else 3000, prop)
